@@ -138,9 +138,14 @@ class BuildEfcNodes:
 class FormatConstraintEvaluation:
     """absent / empty expression counts as fulfilled without message; otherwise value and message of the root"""
     params = dict(format_constraints_expression=Opt(Str()))
-    raises = {"SyntaxError": None, "ValueError": None, "Exception": None, "NotImplementedError": None}
+    # an absent / empty expression is fulfilled WITHOUT anything being parsed or evaluated: nothing can be raised then
+    raises = {"SyntaxError": "onlyif_there_is_an_expression", "ValueError": "onlyif_there_is_an_expression",
+              "NotImplementedError": "onlyif_there_is_an_expression", "Exception": "onlyif_there_is_an_expression"}
     returns = Inst("FormatConstraintEvaluationResult", format_constraints_fulfilled=Bool(), error_message=Opt(Str()))
     ghost_specs = {"fold_root": efc_j}
+
+    def onlyif_there_is_an_expression(format_constraints_expression):
+        return format_constraints_expression is not None and format_constraints_expression != ""
 
     def post_empty_counts_as_fulfilled(format_constraints_expression, result):
         if format_constraints_expression is None or format_constraints_expression == "":
